@@ -15,6 +15,7 @@ import OmplModel.Proofs.PathOpsShortcutOrd
 import OmplModel.Proofs.PathOpsRound6
 import OmplModel.Proofs.PathOpsGeom
 import OmplModel.Proofs.PathOpsRopeF173
+import OmplModel.Proofs.PathOpsShortcutObj
 /-!
 # C17 — path post-processing preserves endpoints, validity and never worsens cost
 
@@ -908,5 +909,95 @@ theorem interpolateCount_early_return {α : Type} (segLen : σ → σ → α) (s
 example : (interpolateCount (fun _ _ : Nat => (0 : Nat)) (fun a _ => a) (fun _ _ _ => 100)
     (fun a _ j _ => a * 100 + j) 0 7 [1, 2, 3]).length = 7 := by decide
 example : subdivide (fun a b : Nat => (a + b) / 2) [0, 10, 20] = [0, 5, 10, 15, 20] := by decide
+
+/-! ## Round 10: partialShortcutPath as a whole routine under an ARBITRARY objective (Model/PathOpsShortcutObj.lean)
+
+`partialShortcutPathObj E start` runs in lock-step with the real routine of a simplifier constructed with a non-default objective
+(`pshorto`: len / work / lin / wreg / toll / step / checker).  `start = .afterPos0` is the tree; `.atPos0` is the variant whose
+`alongPath` loop starts at the segment that CONTAINS the earlier sample. -/
+
+/-- the whole routine, EVERY objective (no law about it), every `checkMotion`, every script, both `start` variants: first and
+last state kept, only derived motions (input / validated in path order / cut of one of those).  The cost test only decides
+WHETHER a validated splice happens, never what is spliced. -/
+theorem pshort_obj_whole_preserves {γ : Type} {E : PsEnvO σ γ} {start : AlongStart} {cut : σ → σ → σ → Prop} (isGoal : σ → Prop)
+    (hcut : ∀ a b t, cut a b (E.interp a b t))
+    {u : Nat → Float} {ms me : Nat} {rr snap : Float} {path out : List σ} {r : Bool}
+    (h : partialShortcutPathObj E start u ms me rr snap path = some (out, r)) :
+    Preserves E.cm cut isGoal path out :=
+  ((partialShortcutPathObj_steps hcut h).toD).preserves isGoal
+
+/-- **own objective, law-free**: every run of the whole routine is a sequence of executed splices each of which passed
+`checkMotion` in path order AND the routine's own cost test: `psAlongPath … = some along` (the cost the loop accumulated for the
+piece between the two samples) and `isCostBetterThan(along, motionCost(s0, s1)) = false` (`PsCostStepD`). -/
+theorem pshort_obj_never_worse_own_objective {γ : Type} {E : PsEnvO σ γ} {start : AlongStart} {cut : σ → σ → σ → Prop}
+    (hcut : ∀ a b t, cut a b (E.interp a b t))
+    {u : Nat → Float} {ms me : Nat} {rr snap : Float} {path out : List σ} {r : Bool}
+    (h : partialShortcutPathObj E start u ms me rr snap path = some (out, r)) :
+    PsCostStepsD E.O start E.cm cut path out :=
+  partialShortcutPathObj_steps hcut h
+
+/-- non-vacuity: a path of fewer than three states is returned unchanged, with zero steps -/
+example : partialShortcutPathObj (σ := Nat) (γ := Nat)
+    { cm := fun _ _ => true, dist := fun _ _ => 1.0, interp := fun a _ _ => a,
+      O := { identity := 0, combine := fun a b => a + b, motion := fun _ _ => 1, better := fun a b => decide (a < b) } }
+    .afterPos0 (fun _ => 0.5) 0 0 1.0 0.0 [1, 2] = some ([1, 2], false) := by
+  simp [partialShortcutPathObj]
+
+/-- **what the tree's `alongPath` is** (additive cost type: `combineCosts = +`, `identityCost = 0`): exactly the cost of
+`psAlongList` — the sample (if not snapped), the vertices `pos0+1 … pos1`, the second sample (if not snapped).  So the quantity
+the routine compares the chord with is the cost of the replaced piece, minus the motion `states[pos0] → states[pos0+1]` when the
+first sample is snapped (the conservative quirk). -/
+theorem pshort_obj_along_is_replaced_cost {κ : Type} [AddCommMonoid κ] [LinearOrder κ] [IsOrderedAddMonoid κ]
+    (d : σ → σ → κ) (st : List σ) (pos0 pos1 : Nat) (idx0 idx1 : Bool) (s0 s1 : σ)
+    (h01 : pos0 < pos1) (hp1 : pos1 < st.length) (along : κ)
+    (h : psAlongPath (addObj d) .afterPos0 st pos0 idx0 s0 pos1 idx1 s1 = some along) :
+    along = pathLen d (psAlongList st pos0 idx0 s0 pos1 idx1 s1) :=
+  psAlongPath_eq_pathLen d st pos0 pos1 idx0 idx1 s0 s1 h01 hp1 along h
+
+/-- non-vacuity: both samples interior (5 in segment 0–10, 25 in 20–30): along = |5–10| + |10–20| + |20–25| = 20 -/
+example : psAlongPath (addObj fun a b : Nat => (a - b) + (b - a)) .afterPos0 [0, 10, 20, 30, 40] 0 false 5 2 false 25 = some 20 := by
+  decide
+
+/-- **never worse under its own objective, path level** (`_partial`).  FULL statement: for every additive objective with
+non-negative motion costs and cost-additive cut points, `pathCost out ≤ pathCost path` for the whole routine.  PROVED: every
+executed splice whose second sample is not snapped to the LAST vertex (`pos1 + 1 < size`) — from the model's own `alongPath`
+and cost test, through `pshort_obj_along_is_replaced_cost` and `pshort_splice_never_longer_of_own_cost_test`.  MISSING: the splice
+that ends at the last vertex (the list lemma `psSplice_pathLen_le_of_cost` is stated with `pos1 + 1 < size`), and the
+composition over the run (which is immediate from `pshort_obj_never_worse_own_objective` once that case is covered). -/
+theorem pshort_obj_never_worse_path_cost_partial {κ : Type} [AddCommMonoid κ] [LinearOrder κ] [IsOrderedAddMonoid κ]
+    (d : σ → σ → κ) (hnn : ∀ a b, 0 ≤ d a b)
+    (st : List σ) (pos0 pos1 : Nat) (idx0 idx1 : Bool) (s0 s1 : σ)
+    (h01 : pos0 < pos1) (h1 : pos1 + 1 < st.length) (hs : psSkip pos0 idx0 pos1 idx1 = false)
+    (hc0 : idx0 = false → d (st[pos0]'(by omega)) s0 + d s0 (st[pos0 + 1]'(by omega)) =
+      d (st[pos0]'(by omega)) (st[pos0 + 1]'(by omega)))
+    (hc1 : idx1 = false → d (st[pos1]'(by omega)) s1 + d s1 (st[pos1 + 1]'h1) =
+      d (st[pos1]'(by omega)) (st[pos1 + 1]'h1))
+    (hv0 : idx0 = true → s0 = st[pos0]'(by omega)) (hv1 : idx1 = true → s1 = st[pos1]'(by omega))
+    (along : κ) (ha : psAlongPath (addObj d) .afterPos0 st pos0 idx0 s0 pos1 idx1 s1 = some along)
+    (hb : (addObj d).better along ((addObj d).motion s0 s1) = false)
+    {out : List σ} (h : psSplice st pos0 idx0 s0 pos1 idx1 s1 = some out) :
+    pathLen d out ≤ pathLen d st :=
+  psSplice_cost_le_of_own_test d hnn st pos0 pos1 idx0 idx1 s0 s1 h01 h1 hs hc0 hc1 hv0 hv1 along ha hb h
+
+/-- the states of the witness below: vertices 0 1 2 3, cut points 4 (inside 0–1) and 5 (inside 2–3); every segment costs 10, the
+cuts are at half cost, the chord 4 → 5 costs 25 (it crosses an expensive region), every other pair 100 -/
+def dblCost (a b : Nat) : Nat :=
+  if (a, b) = (0, 1) ∨ (a, b) = (1, 2) ∨ (a, b) = (2, 3) then 10
+  else if (a, b) = (0, 4) ∨ (a, b) = (4, 1) ∨ (a, b) = (2, 5) ∨ (a, b) = (5, 3) then 5
+  else if (a, b) = (4, 5) then 25 else 100
+
+/-- **starting `alongPath` at `posTemp = pos0` accepts a shortcut that makes the path worse** (the "obvious repair" of the
+conservative quirk): with the first sample INSIDE segment `pos0` its partial cost (5) and the whole segment (10) are both counted,
+`alongPath = 30 ≥ 25`, the splice is executed, and the path cost goes from 30 to 35 although both cuts are cost-additive;
+the tree's loop gives `alongPath = 20 < 25` on the same input and rejects. -/
+theorem pshort_along_from_pos0_accepts_worse_fails :
+    psAlongPath (addObj dblCost) .atPos0 [0, 1, 2, 3] 0 false 4 2 false 5 = some 30 ∧
+    (addObj dblCost).better 30 (dblCost 4 5) = false ∧
+    psSplice [0, 1, 2, 3] 0 false 4 2 false 5 = some [0, 4, 5, 3] ∧
+    dblCost 0 4 + dblCost 4 1 = dblCost 0 1 ∧ dblCost 2 5 + dblCost 5 3 = dblCost 2 3 ∧
+    pathLen dblCost [0, 1, 2, 3] < pathLen dblCost [0, 4, 5, 3] ∧
+    psAlongPath (addObj dblCost) .afterPos0 [0, 1, 2, 3] 0 false 4 2 false 5 = some 20 ∧
+    (addObj dblCost).better 20 (dblCost 4 5) = true := by
+  decide
 
 end OmplModel.Props.C17
